@@ -134,6 +134,127 @@ a start) — and replaying them from the empty set yields the final match set. -
 theorem callbacks_alternate (ops : List Op) : Replay [] (run ops).2 (run ops).1.matched :=
   runFrom_replay ops inv_empty
 
+/-! ### the tables `index_eq_eval` reads are the last values written -/
+
+/-- the index's INPUT tables: per item its labels and ordered parent ids, per parent its labels, per selector
+id the canonical text of the stored selector (`UpdateSelector` keeps the old object when the texts are equal) -/
+structure Tables where
+  items : Nat → Option (List (Str × Str) × List Str)
+  parents : Str → Option (List (Str × Str))
+  sels : Nat → Option Str
+
+/-- "last writer wins": an update stores what was written under its key, a deletion removes the key, nothing
+else changes -/
+def Tables.apply (t : Tables) : Op → Tables
+  | .updateLabels id l ps => { t with items := fun k => if k = id then some (l, ps) else t.items k }
+  | .deleteLabels id => { t with items := fun k => if k = id then none else t.items k }
+  | .updateParentLabels p l => { t with parents := fun k => if k = p then some l else t.parents k }
+  | .deleteParentLabels p => { t with parents := fun k => if k = p then none else t.parents k }
+  | .updateSelector id n => { t with sels := fun k => if k = id then some n.text else t.sels k }
+  | .deleteSelector id => { t with sels := fun k => if k = id then none else t.sels k }
+
+def tablesOf (st : Idx) : Tables :=
+  { items := fun k => (lookup k st.items).map (fun it => (it.labels, it.parents))
+    parents := fun k => lookup k st.parents
+    sels := fun k => (lookup k st.sels).map (·.text) }
+
+theorem apply_tables (st : Idx) (op : Op) : tablesOf (op.apply st).1 = (tablesOf st).apply op := by
+  cases op with
+  | updateLabels id l ps =>
+    show Tables.mk _ _ _ = Tables.mk _ _ _
+    congr 1
+    funext k
+    show (lookup k (insert id ⟨l, ps⟩ st.items)).map _ = _
+    rw [lookup_insert]
+    by_cases hk : k = id
+    · subst hk; simp
+    · have : ¬ id = k := fun e => hk e.symm
+      simp [hk, this]; rfl
+  | deleteLabels id =>
+    show Tables.mk _ _ _ = Tables.mk _ _ _
+    congr 1
+    funext k
+    show (lookup k (erase id st.items)).map _ = _
+    rw [lookup_erase]
+    by_cases hk : k = id
+    · simp [hk]
+    · simp [hk]; rfl
+  | updateParentLabels p l =>
+    show Tables.mk _ _ _ = Tables.mk _ _ _
+    congr 1
+    funext k
+    show lookup k (insert p l st.parents) = _
+    rw [lookup_insert]
+    by_cases hk : k = p
+    · subst hk; simp
+    · have : ¬ p = k := fun e => hk e.symm
+      simp [hk, this]; rfl
+  | deleteParentLabels p =>
+    show Tables.mk _ _ _ = Tables.mk _ _ _
+    congr 1
+    funext k
+    show lookup k (erase p st.parents) = _
+    rw [lookup_erase]
+    by_cases hk : k = p
+    · simp [hk]
+    · simp [hk]; rfl
+  | updateSelector id n =>
+    simp only [Op.apply, C07.updateSelector]
+    cases ho : lookup id st.sels with
+    | none =>
+      show Tables.mk _ _ _ = Tables.mk _ _ _
+      congr 1
+      funext k
+      show (lookup k (insert id n st.sels)).map _ = _
+      rw [lookup_insert]
+      by_cases hk : k = id
+      · subst hk; simp
+      · have : ¬ id = k := fun e => hk e.symm
+        simp [hk, this]; rfl
+    | some old =>
+      simp only []
+      by_cases ht : old.text = n.text
+      · simp only [ht, if_true]
+        show Tables.mk _ _ _ = Tables.mk _ _ _
+        congr 1
+        funext k
+        by_cases hk : k = id
+        · subst hk; simp [ho, ht]
+        · simp [hk]; rfl
+      · simp only [ht, if_false]
+        show Tables.mk _ _ _ = Tables.mk _ _ _
+        congr 1
+        funext k
+        show (lookup k (insert id n st.sels)).map _ = _
+        rw [lookup_insert]
+        by_cases hk : k = id
+        · subst hk; simp
+        · have : ¬ id = k := fun e => hk e.symm
+          simp [hk, this]; rfl
+  | deleteSelector id =>
+    show Tables.mk _ _ _ = Tables.mk _ _ _
+    congr 1
+    funext k
+    show (lookup k (erase id st.sels)).map _ = _
+    rw [lookup_erase]
+    by_cases hk : k = id
+    · simp [hk]
+    · simp [hk]; rfl
+
+theorem tables_runFrom : ∀ (ops : List Op) (st : Idx), tablesOf (runFrom st ops).1 = ops.foldl Tables.apply (tablesOf st)
+  | [], _ => rfl
+  | op :: ops, st => by
+    simp only [runFrom, List.foldl_cons]
+    rw [tables_runFrom ops, apply_tables]
+
+/-- **The tables `index_eq_eval` reads are the last values written.**  `index_eq_eval` is stated over the
+index's item, parent-label and selector tables; along every history from a fresh index these tables are exactly
+"last writer wins" (`Tables.apply`).  Together with `index_eq_eval` this makes the match set a function of the
+current inputs only. -/
+theorem input_tables_last_writer_wins (ops : List Op) :
+    tablesOf (run ops).1 = ops.foldl Tables.apply ⟨fun _ => none, fun _ => none, fun _ => none⟩ :=
+  tables_runFrom ops {}
+
 /-- FULL (all selectors, all label maps): a label map that the selector matches
 satisfies every restriction `LabelRestrictions()` derives (must-be-present,
 must-be-absent, must-have-one-of-values), so pruning on them is safe. -/
